@@ -706,22 +706,37 @@ def rule_stop(ctx):
     step_loc = next((b["local"] for b in pat_bindings(lp[1])), None)
     cmap = _cluster_map(lp[2])
     m = next((y for y in walk(lp[2]) if y.get("k") == "Match" and y.get("src", "Normal") == "Normal" and _self_field(y["scrut"]) == "stopping"), None)
-    if m is None or cmap is None:
+    FLIP = {"<": ">", "<=": ">=", ">": "<", ">=": "<=", "==": "==", "!=": "!="}
+    # the same tests written as one `if let Criterion::X(v) = self.stopping { if <comparison> { break } }` per criterion
+    iflets = []
+    if m is None and cmap is not None:
+        body0 = strip(lp[2])
+        stmts0 = list(body0.get("stmts") or []) + ([body0["e"]] if body0.get("e") is not None else [])
+        for i0, st0 in enumerate(stmts0):
+            s0 = strip(st0)
+            cnd0 = strip(s0.get("c") or {}) if s0.get("k") == "If" else {}
+            if cnd0.get("k") == "Let" and _self_field(cnd0.get("init")) == "stopping" and s0.get("else") is None:
+                inner = [y for y in walk(s0["then"]) if y.get("k") == "If" and any(z.get("k") == "Break" for z in walk(y["then"]))]
+                if len(inner) == 1:
+                    iflets.append((i0, cnd0["pat"], inner[0]))
+    if (m is None and not iflets) or cmap is None:
         res.undecided("%s : stop-test" % key, "no match over self.stopping inside the step loop (fail closed)", fn_loc(fn))
         return res.finish(3)
-    FLIP = {"<": ">", "<=": ">=", ">": "<", ">=": "<=", "==": "==", "!=": "!="}
-    for arm in m["arms"]:
-        pat = arm["pat"]
+    arms_ = [(arm["pat"], arm["body"], None) for arm in m["arms"]] if m is not None else [(p_, i_["c"], (i0, i_)) for i0, p_, i_ in iflets]
+    positions = {}
+    for pat, body_, where in arms_:
         while pat.get("k") == "Ref":
             pat = pat["pat"]
         vname = (c.dfn(pat.get("def")) or {}).get("name")
         bl = [b["local"] for b in pat_bindings(pat)]
         if vname not in ("NumClusters", "Distance") or len(bl) != 1:
             continue
-        e = peel_refs(arm["body"])
+        e = peel_refs(body_)
         while e.get("k") == "Block" and not e["stmts"] and e.get("e") is not None:
             e = peel_refs(e["e"])
         res.instance("%s : %s" % (key, vname))
+        if where is not None:
+            positions[vname] = where
         if e.get("k") != "Binary" or e["op"] not in FLIP:
             res.undecided("%s : %s-form" % (key, vname), "`%s` is not a comparison (fail closed)" % r.e(e)[:40], fn_loc(fn, e.get("ln")))
             continue
@@ -768,6 +783,16 @@ def rule_stop(ctx):
                 neg = cnd.get("k") == "Unary" and cnd["op"] == "!"
                 brk = (i, neg, s)
     rem = next((i for i, st in enumerate(stmts) if any(z.get("k") == "MethodCall" and z["name"] in ("remove", "insert") and local_of(z["recv"]) == cmap for z in walk(st))), None)
+    if m is None and rem is not None and positions:
+        late = [(vn, w) for vn, w in sorted(positions.items()) if w[0] > rem]
+        if len(positions) < 2:
+            res.undecided("%s : test-position" % key, "only %s of the two criteria has a recognised `if let .. { if .. { break } }` test (fail closed)" % "/".join(sorted(positions)), fn_loc(fn))
+        elif late:
+            for vn, w in late:
+                res.violate("%s : stop-test-after-merge" % key, "the %s test is evaluated after the merge of the step: one merge more than documented is performed (and the count is taken after it)" % vn, fn_loc(fn, w[1].get("ln")))
+        else:
+            res.ok()
+        return res.finish(3)
     if brk is None or rem is None:
         res.undecided("%s : test-position" % key, "`if <stop test> { break }` and the merge were not found as statements of the loop body (fail closed)", fn_loc(fn))
     elif brk[1]:
@@ -1073,6 +1098,21 @@ def rule_linkage(ctx):
                 clamped.append(e)
                 return neglog(inner)
             return None
+        # an outer `if x >= c { constant } else { <the two-branch transform> }` (or the other way round) is a clamp written
+        # as a branch: a whole range of similarities gets one dissimilarity
+        while body.get("k") == "If" and body.get("else") is not None:
+            th_, el_ = peel_refs(body["then"]), peel_refs(body["else"])
+            for q in (0, 1):
+                a_, b_ = (th_, el_) if q == 0 else (el_, th_)
+                b2 = b_
+                while b2.get("k") == "Block" and not b2["stmts"] and b2.get("e") is not None:
+                    b2 = peel_refs(b2["e"])
+                if b2.get("k") == "If" and b2.get("else") is not None and _const_branch(c, fn, a_) is not None and any(z.get("k") == "MethodCall" and z["name"] == "ln" for z in walk(b2)):
+                    clamped.append(body)
+                    body = b2
+                    break
+            else:
+                break
         if body.get("k") == "If" and body.get("else") is not None:
             t_, e_ = neglog(body["then"]), neglog(body["else"])
             cnd = strip(body["c"])
@@ -1158,6 +1198,8 @@ def _const_branch(c, fn, e, depth=0):
         return _const_branch(c, fn, e["args"][0], depth + 1)
     if e.get("k") == "MethodCall" and e["name"] == "unwrap" and not e["args"]:
         return _const_branch(c, fn, e["recv"], depth + 1)
+    if e.get("k") == "Call" and not e["args"] and (c.dfn(strip(e["f"]).get("def")) or {}).get("name") in ("zero", "one"):
+        return 0.0 if (c.dfn(strip(e["f"]).get("def")) or {}).get("name") == "zero" else 1.0
     if e.get("k") == "Path" and "local" in e:
         for y in walk(fn["body"]):
             if y.get("k") == "LetStmt" and y.get("init") is not None and y["pat"].get("k") == "Bind" and y["pat"]["local"] == e["local"]:
